@@ -59,6 +59,13 @@ class Sessions(Stage):
             extra.append(['cmd', d.choice(['list ', 'filter ', 'list * ! ']) + d.choice(['*m*', '*0*', '*1*', '*9*', '(*m*)', '(*1*)', '*m'])])
         if d.chance(0.25):
             extra.append(['cmd', d.choice(['help matcher', 'help wlmatcher', 'h matcher', 'help', 'help list', 'help connection'])])
+        if d.chance(0.35):
+            # a connection named by text that also occurs inside escape sequences, or by a word of its description: whatever
+            # the tool makes of it, it must make the same of it in both settings (shown by the connection list and a listing)
+            for _ in range(d.int(1, 2)):
+                extra.append(['cmd', 'connection ' + d.choice(['1', '0', 'm', '[', '37', '0m', '1;3', 'client', 'server', 'closed', 'open', 'unknown', ')', ',', 'A (', 'B'])])
+                extra.append(['cmd', 'connection'])
+                extra.append(['cmd', 'list ~ 3'])
         # splice the extras at drawn positions
         for e in extra:
             items.insert(d.int(0, len(items)), e)
